@@ -366,13 +366,18 @@ func (t *transpiler) evaluateFor(forStatement parser.For) error {
 }
 
 func (t *transpiler) evaluateVarDefinition(definition parser.VariableDefinition) error {
-	for i, variable := range definition.Variables() {
-		result, err := t.evaluateExpression(definition.Values()[i], true)
+	variables := definition.Variables()
 
-		if err != nil {
-			return err
-		}
-		err = t.converter.VarDefinition(variable.Name(), result.firstValue(), variable.Global())
+	// A definition might re-define variables which are used by its values (b, c := a, b), therefore
+	// all values are evaluated (and buffered) before any variable is defined.
+	values, err := t.evaluateAssignedValues(definition.Values(), len(variables))
+
+	if err != nil {
+		return err
+	}
+
+	for i, variable := range variables {
+		err := t.converter.VarDefinition(variable.Name(), values[i], variable.Global())
 
 		if err != nil {
 			return err
@@ -406,36 +411,45 @@ func (t *transpiler) evaluateVarDefinitionCallAssignment(definition parser.Varia
 	return nil
 }
 
-func (t *transpiler) evaluateVarAssignment(assignment parser.VariableAssignment) error {
-	variables := assignment.Variables()
+func (t *transpiler) evaluateAssignedValues(expressions []parser.Expression, count int) ([]string, error) {
 	values := []string{}
 
 	// Evaluate all values before assigning any variable (a, b = b, a must use the old values).
-	for i := range variables {
-		result, err := t.evaluateExpression(assignment.Values()[i], true)
+	for i := 0; i < count; i++ {
+		result, err := t.evaluateExpression(expressions[i], true)
 
 		if err != nil {
-			return err
+			return nil, err
 		}
 		values = append(values, result.firstValue())
 	}
 
 	// Values are references to variables, therefore buffer them if more than one variable is assigned.
-	if len(variables) > 1 {
+	if count > 1 {
 		for i, value := range values {
 			helper := fmt.Sprintf("_ma%d", i)
 			err := t.converter.VarDefinition(helper, value, false)
 
 			if err != nil {
-				return err
+				return nil, err
 			}
 			buffered, err := t.converter.VarEvaluation(helper, true, false)
 
 			if err != nil {
-				return err
+				return nil, err
 			}
 			values[i] = buffered
 		}
+	}
+	return values, nil
+}
+
+func (t *transpiler) evaluateVarAssignment(assignment parser.VariableAssignment) error {
+	variables := assignment.Variables()
+	values, err := t.evaluateAssignedValues(assignment.Values(), len(variables))
+
+	if err != nil {
+		return err
 	}
 
 	for i, variable := range variables {
